@@ -116,6 +116,11 @@ func (c *checker) one(b []byte, s *optSet) (msg string) {
 	if got := jsontext.Value(b).IsValid(s.opts...); got != want {
 		return fmt.Sprintf("Value.IsValid=%v, reference=%v", got, want)
 	}
+	// 1b. Value.Kind: the class of the first byte after the leading whitespace ('-' and digits are numbers, anything that
+	// cannot start a token is invalid); never a closing delimiter for a valid value
+	if got, exp := byte(jsontext.Value(b).Kind()), kindOf(b); got != exp || (want && (got == '}' || got == ']' || got == 0)) {
+		return fmt.Sprintf("Value.Kind=%q, first significant byte says %q (valid=%v)", got, exp, want)
+	}
 	// 2. ReadValue then ReadToken must give io.EOF
 	c.rd.Reset(b)
 	c.dec.Reset(&c.rd, s.opts...)
@@ -226,6 +231,22 @@ func (c *checker) one(b []byte, s *optSet) (msg string) {
 		return fmt.Sprintf("Unmarshal(any) err=%v, reference valid=%v", err, want)
 	}
 	return ""
+}
+
+// kindOf classifies a text by its first byte after leading JSON whitespace.
+func kindOf(b []byte) byte {
+	for _, c := range b {
+		switch c {
+		case ' ', '\t', '\n', '\r':
+			continue
+		case 'n', 't', 'f', '"', '{', '}', '[', ']':
+			return c
+		case '-', '0', '1', '2', '3', '4', '5', '6', '7', '8', '9':
+			return '0'
+		}
+		return 0
+	}
+	return 0
 }
 
 // overflows reports whether some number token of b overflows float64 (permissive parse).
